@@ -88,12 +88,32 @@ mod n {
             let damaged = text.replacen("Muro;P01_E01_PE001;28.00;", "Muro;P01_E01_PE001;veintiocho;", 1);
             std::fs::write(&kyg, damaged.chars().map(|ch| ch as u32 as u8).collect::<Vec<u8>>()).unwrap();
         }
+        // synthetic projects: `cubo` with a degenerate element the library still converts - a ground slab of zero area
+        // (three collinear corners) listed before the real slab of its space, with and without perimeter insulation
+        let sliver = tmp_dir("c01-sliver");
+        let sliver_bare = tmp_dir("c01-sliver-bare");
+        if let Some(cubo) = dirs.iter().find(|d| d.file_name().map(|n| n == "cubo").unwrap_or(false)) {
+            let text = std::fs::read_to_string(ctehexml_of(cubo).unwrap()).unwrap_or_default();
+            let polygon = "\"P01_E01_FTER000_Pol\" = POLYGON\n    V1   =( 0, 0 )\n    V2   =( 10, 0 )\n    V3   =( 5, 0 )\n    ..\n";
+            let slab = "            \"P01_E01_FTER000\" = UNDERGROUND-WALL\n                  Z-GROUND      =              0\n   COMPROBAR-REQUISITOS-MINIMOS = YES\n                  CONSTRUCTION  = \"Contacto por defecto\"\n                  X             =              0\n                  Y             =              0\n                  Z             =              0\n                  AZIMUTH       =            180\n                  TILT          =            180\n                  POLYGON       = \"P01_E01_FTER000_Pol\"\n                        ..\n                  \"Contacto por defecto\" =  CONSTRUCTION\n                        TYPE   = LAYERS\n                        LAYERS = \"Contacto por defecto\"\n                        ..\n";
+            let (first_polygon, real_slab) = ("\"P01_Poligono1\" = POLYGON", "            \"P01_E01_FTER001\" = UNDERGROUND-WALL");
+            let with = text.replacen(first_polygon, &format!("{}{}", polygon, first_polygon), 1).replacen(real_slab, &format!("{}{}", slab, real_slab), 1);
+            let bare = with.replacen("D-AISLAMIENTO-PERIMETRAL  = 1.000000", "D-AISLAMIENTO-PERIMETRAL  = 0.000000", 1).replacen("RA-AISLAMIENTO-PERIMETRAL = 1.000000", "RA-AISLAMIENTO-PERIMETRAL = 0.000000", 1);
+            for (dir, t) in [(&sliver, &with), (&sliver_bare, &bare)] {
+                for f in ["KyGananciasSolares.txt", "NewBDL_O.tbl"] {
+                    let _ = std::fs::copy(cubo.join(f), dir.join(f));
+                }
+                std::fs::write(dir.join("cubo_sliver.ctehexml"), t).unwrap();
+            }
+        }
         let mut dirs = dirs;
         dirs.push(kygbad.clone());
+        dirs.push(sliver.clone());
+        dirs.push(sliver_bare.clone());
         let have_bins = bin("hulc2model").exists() && bin("thor").exists();
-        drive("C01.export", "the real hulc2model binary on the 12 shipped project directories x {default, --use-extra}, on an empty directory, a directory without project, a missing one and two directories whose project the library rejects (cut in half, broken reference) and a copy of `cubo` with a damaged KyGananciasSolares.txt (converts by default, fails with --use-extra); the same directory given with a trailing slash and as a relative path; thor -o on the 12 project files, into a new file and over an existing longer one; compared with collect_hulc_data / Model::try_from in this process", |c| {
+        drive("C01.export", "the real hulc2model binary on the 12 shipped project directories x {default, --use-extra}, on an empty directory, a directory without project, a missing one and two directories whose project the library rejects (cut in half, broken reference) and a copy of `cubo` with a damaged KyGananciasSolares.txt (converts by default, fails with --use-extra), two synthetic variants of `cubo` with a zero-area ground slab (with / without perimeter insulation); the same directory given with a trailing slash and as a relative path; thor -o on the 12 project files, into a new file and over an existing longer one; compared with collect_hulc_data / Model::try_from in this process", |c| {
             c.check("C01.tools_built", have_bins, || format!("hulc2model / thor not found in {:?}", std::env::var("VERIF_BIN_DIR")));
-            c.check("C01.corpus", dirs.len() >= 13, || format!("{} project directories", dirs.len()));
+            c.check("C01.corpus", dirs.len() >= 15 && std::fs::read_to_string(sliver.join("cubo_sliver.ctehexml")).map(|t| t.contains("P01_E01_FTER000_Pol") && t.matches("P01_E01_FTER000\"").count() >= 1).unwrap_or(false), || format!("{} project directories", dirs.len()));
             if !have_bins {
                 return;
             }
@@ -196,6 +216,8 @@ mod n {
         let _ = std::fs::remove_dir_all(&empty);
         let _ = std::fs::remove_dir_all(&other);
         let _ = std::fs::remove_dir_all(&kygbad);
+        let _ = std::fs::remove_dir_all(&sliver);
+        let _ = std::fs::remove_dir_all(&sliver_bare);
         let _ = std::fs::remove_dir_all(&cut);
         let _ = std::fs::remove_dir_all(&broken);
     }
